@@ -391,7 +391,7 @@ func TestFuzzSeeds(t *testing.T) {
 	}
 	shard, shards := vk.Shard()
 	u.Set("seeds_total", len(names))
-	u.Set("how_to_fuzz", "cd /verif && GOFLAGS=-mod=mod GOPROXY=off GOSUMDB=off GOTOOLCHAIN=local go test ./checks/c11 -run '^$' -fuzz '^FuzzPipeline$' -fuzztime 20m")
+	u.Set("how_to_fuzz", "run by vcheck in the thorough tier; by hand: cd /verif && VERIF_FUZZING=1 GOFLAGS=-mod=mod GOPROXY=off GOSUMDB=off GOTOOLCHAIN=local go test ./checks/c11 -run '^$' -fuzz '^FuzzPipeline$' -fuzztime 20m")
 	for i, n := range names {
 		if i%shards != shard {
 			continue
